@@ -163,7 +163,16 @@ func (m *Migrator) findV1Swamps() ([]string, error) {
 
 		// Check if this is a V1 swamp folder (contains .dat files or meta.json)
 		if m.isV1SwampFolder(path) {
-			swampFolders = append(swampFolders, path)
+			// The .hyd file of a swamp is derived from its folder path by
+			// appending ".hyd". The walk root is passed through as it was
+			// given, so a data path like "folder/", "folder/." or "." must be
+			// normalised here; otherwise the file would be created inside the
+			// legacy folder (and removed again by DeleteOld).
+			folder := filepath.Clean(path)
+			if abs, absErr := filepath.Abs(path); absErr == nil {
+				folder = abs
+			}
+			swampFolders = append(swampFolders, folder)
 			return filepath.SkipDir // Don't recurse into swamp folders
 		}
 
